@@ -88,6 +88,8 @@ type nilFn struct {
 	params  map[types.Object]int
 	exits   []nstate
 	typeSw  map[types.Object]bool // type-switch vars that may be typed nil
+	pairVal map[types.Object]types.Object // found-flag of a (pointer, bool) lookup call -> the pointer it vouches for
+	pairPtr map[types.Object]bool         // pointers obtained together with a found-flag
 	collect bool
 	reqSink map[string]nilReq
 	// closures: requirements on the parameters of function literals bound to locals, checked at their call sites
@@ -314,6 +316,40 @@ func (e *nilEngine) newFn(fi *core.FuncInfo) *nilFn {
 			}
 		}
 	}
+	// (pointer, found) pairs returned by a lookup function of the module: v, ok := s.Lookup(…)
+	f.pairVal, f.pairPtr = map[types.Object]types.Object{}, map[types.Object]bool{}
+	ast.Inspect(fi.Decl.Body, func(n ast.Node) bool {
+		as, ok := n.(*ast.AssignStmt)
+		if !ok || len(as.Rhs) != 1 || len(as.Lhs) < 2 {
+			return true
+		}
+		call, ok := core.Unparen(as.Rhs[0]).(*ast.CallExpr)
+		if !ok {
+			return true
+		}
+		callee := e.c.P.StaticCallee(fi, call)
+		if callee == nil || e.c.P.Funcs[callee] == nil {
+			return true
+		}
+		res := callee.Type().(*types.Signature).Results()
+		if res.Len() != len(as.Lhs) || !core.IsBool(res.At(res.Len()-1).Type()) {
+			return true
+		}
+		okObj := core.ObjOf(f.info, as.Lhs[len(as.Lhs)-1])
+		if okObj == nil {
+			return true
+		}
+		for i := 0; i < res.Len()-1; i++ {
+			if !core.IsPointer(res.At(i).Type()) {
+				continue
+			}
+			if vo := core.ObjOf(f.info, as.Lhs[i]); vo != nil {
+				f.pairVal[okObj] = vo
+				f.pairPtr[vo] = true
+			}
+		}
+		return true
+	})
 	return f
 }
 
@@ -381,6 +417,17 @@ func (e *nilEngine) analyzeCollect(fi *core.FuncInfo) {
 
 // key returns the fact key of a path-like expression ("" when it has none).
 func (f *nilFn) key(e ast.Expr) string {
+	// the variable of a pointer-typed type-switch case is not the switched interface value: `v != nil` says
+	// nothing about a typed nil pointer inside v — never follow that alias
+	if id, ok := core.Unparen(e).(*ast.Ident); ok {
+		o := f.info.Uses[id]
+		if o == nil {
+			o = f.info.Defs[id]
+		}
+		if o != nil && f.typeSw[o] {
+			return f.rootKey(o)
+		}
+	}
 	p := f.e.c.P.PathOf(f.fi, e, true)
 	if p == nil || p.Root == nil {
 		// the alias chain ends in a literal or a call: fall back to the local variable itself
@@ -428,6 +475,9 @@ func (f *nilFn) sourceKind(e ast.Expr, forStore bool) string {
 		if o != nil {
 			if f.typeSw[o] {
 				return "typednil"
+			}
+			if f.pairPtr[o] && !forStore {
+				return "lookup"
 			}
 			if _, isParam := f.params[o]; isParam && !forStore {
 				return "param"
@@ -626,6 +676,8 @@ func kindText(k string) string {
 		return "map lookup without comma-ok"
 	case "typednil":
 		return "typed nil returned by jsonpointer Get for an absent optional keyword"
+	case "lookup":
+		return "pointer returned together with a found-flag, used before the flag is tested"
 	}
 	return k
 }
@@ -666,6 +718,12 @@ func (f *nilFn) condFacts(e ast.Expr, neg bool) []string {
 							}
 						}
 					}
+				}
+			}
+			// the found-flag of a (pointer, found) lookup vouches for the pointer
+			if id, ok := core.Unparen(c.Expr).(*ast.Ident); ok {
+				if vo := f.pairVal[f.info.Uses[id]]; vo != nil {
+					out = append(out, f.rootKey(vo))
 				}
 			}
 			// local bool defined as a conjunction
